@@ -1,0 +1,9 @@
+//go:build verif
+// +build verif
+
+package parser
+
+// VerifState exposes the scanner's position bookkeeping to the verification harness (read-only).
+func (s *Scanner) VerifState() (offset, lineHead, line int) {
+	return s.offset, s.lineHead, s.line
+}
